@@ -312,7 +312,8 @@ public:
     {
       std::string in;
       if (ce && !ce->inputs.empty() && r.chance(3, 4)) in = ce->inputs[r.below(ce->inputs.size())];
-      else { size_t n = (size_t)r.below(6); for (size_t k = 0; k < n; k++) in.push_back((char)(r.chance(1, 4) ? r.below(256) : 1 + r.below(12))); }
+      else { size_t n = (size_t)r.below(6); if (r.chance(1, 40)) n = (r.chance(1, 2) ? 4094 : 8190) + (size_t)r.below(5);     // around a 4096-byte buffer boundary
+             for (size_t k = 0; k < n; k++) in.push_back((char)(n > 100 ? 32 + r.below(95) : r.chance(1, 4) ? r.below(256) : 1 + r.below(12))); }
       // EOF instant: shorter than, equal to, longer than what the program reads.
       unsigned e = (unsigned)r.below(4);
       if (e == 0 && !in.empty()) in.resize((size_t)r.below(in.size()));
